@@ -27,6 +27,8 @@ pub struct Work {
     pub execs: u64,
     pub exec_wall: Duration,
     pub stall_retries: u64,
+    /// violation classes this worker has already minimised (later ones are reported unminimised)
+    pub seen: std::collections::BTreeSet<String>,
 }
 
 pub fn rm_rf(p: &Path) {
@@ -64,6 +66,7 @@ impl Work {
             execs: 0,
             exec_wall: Duration::ZERO,
             stall_retries: 0,
+            seen: Default::default(),
         }
     }
 
